@@ -19,7 +19,7 @@ ASSUMPTIONS = ["when two channels of one basis drive the same atom the statement
 TIERS = {"quick": dict(cases=480, shards=8, case_timeout=240, shard_timeout=1200),
          "thorough": dict(cases=4000, shards=16, case_timeout=240, shard_timeout=3400)}
 FLOORS = {"quick": {"sequences_compared": 250, "hamiltonians_compared": 30000, "basis_checks": 250, "open_global_eom_blocks_padded": 5, "xy_mask_scripts_compared": 30,
-                    "idle_sequences_compared": 15},
+                    "idle_sequences_compared": 15, "shared_detuning_map_pairs_compared": 15},
           "thorough": {"sequences_compared": 2000}}
 WEIGHTS = {"sample": 0, "str": 0, "to_abstract_repr": 0, "build_copy": 0, "queries": 0, "get_duration": 0,
            "estimate_added_delay": 0, "is_in_eom_mode": 0, "current_phase_ref": 0, "measure": 0.05, "add": 12,
@@ -94,7 +94,47 @@ def idle_case(ctx, idx, rng):
         ctx.count("idle_sequences_compared")
 
 
+def shared_map_case(ctx, idx, rng):
+    """Directed: ONE DetuningMap object configured in two sequences whose registers carry the same qubit ids at
+    different traps; both are emulated, the second after the first (the weights are per position, not per name)."""
+    from vmon import objs
+
+    dev = {"kind": "builtin", "name": "MockDevice"}
+    reg1 = gen.gen_register(rng, dev, nmin=2, nmax=4, kind="reg", ids=gen.pick(rng, ["str", "int"]))
+    n = len(reg1["ids"])
+    perm = gen.pick(rng, [list(range(n))[::-1], list(range(1, n)) + [0]])
+    reg2 = {"kind": "reg", "ids": list(reg1["ids"]), "coords": [reg1["coords"][j] for j in perm]}
+    ws = rng.sample([0.0, 1.0, 0.5, 0.25, 0.8], n)
+    if not any(ws):
+        ws[0] = 1.0
+    objs.SHARED_MAPS.clear()
+    m = {"by": "traps", "traps": [list(c) for c in reg1["coords"]], "weights": ws, "share": "c05-%d" % idx}
+    done = 0
+    for reg in (reg1, reg2):
+        r = prog.Runner(ctx, dev, reg, [])
+        ops = [{"op": "config_detuning_map", "map": m, "dmm_id": "dmm_0"}]
+        d = gen.pick(rng, [16, 40, 100])
+        ops.append({"op": "add_dmm_detuning", "wf": {"k": "const", "d": d, "v": -gen.pick(rng, [1.0, 4.0, 9.5])}, "ch": "dmm_0"})
+        if rng.random() < 0.6:
+            ops.insert(rng.randint(0, 1), {"op": "declare_channel", "name": "g", "ch_id": "rydberg_global"})
+            ops.append({"op": "add", "pulse": gen.gen_pulse(rng, r.chspecs["rydberg_global"], d=gen.pick(rng, [16, 60]), pps_p=0.0, arb=0.0), "ch": "g"})
+        for op in ops:
+            if r.step(op).exc is not None:
+                ctx.count("shared_map_call_refused")
+                objs.SHARED_MAPS.clear()
+                return
+        r.prog["the_same_DetuningMap_object_was_used_before_with_register"] = None if reg is reg1 else reg1
+        if check_hamiltonian(ctx, r.seq, case=r.prog):
+            done += 1
+    objs.SHARED_MAPS.clear()
+    if done == 2:
+        ctx.count("shared_detuning_map_pairs_compared")
+        ctx.mark_nontrivial(("c05shared", idx))
+
+
 def run_case(ctx, idx, rng, tier):
+    if idx % 16 == 11:
+        return shared_map_case(ctx, idx, rng)
     if idx % 8 == 3:
         return xy_mask_case(ctx, idx, rng)
     if idx % 16 == 7:
